@@ -1,5 +1,6 @@
 import BiotiteModel.Proofs.C13
 import BiotiteModel.Gen.C13
+import BiotiteModel.Proofs.C13Expected
 /-!
 # C13 — property theorems (slicing annotations and annotated sequences)
 
@@ -799,6 +800,83 @@ theorem C13_gen_complement :
     Gen.C13.complCodes = complTable ∧ Gen.C13.alphabetAmb.toList = letters ∧
     Gen.C13.alphabetUnamb.toList = letters.take 4 ∧
     (∀ c, c < 4 → compl c < 4) ∧ (∀ c, c < 15 → compl (compl c) = c) := by decide
+
+/-! ## The code the model was written against (structural normal forms, regenerated on every run) -/
+
+/-- Same functions, in the same order, as in the reviewed snapshot. -/
+theorem C13_gen_nf_keys :
+    Gen.C13.nfNames = Expected.nfNames := rfl
+
+/-- Constructors, equality and hashing of Location / Feature / Annotation / AnnotatedSequence:
+`first > last` → ValueError, `len(locs) == 0` → ValueError, `frozenset(locs)`, deep-copied qualifiers,
+`set(features)`, attribute-wise `==`, the hashed tuples. -/
+theorem C13_gen_nf_construct :
+    Gen.C13.nf_Location_init = Expected.nf_Location_init ∧
+    Gen.C13.nf_Location_eq = Expected.nf_Location_eq ∧
+    Gen.C13.nf_Location_hash = Expected.nf_Location_hash ∧
+    Gen.C13.nf_Feature_init = Expected.nf_Feature_init ∧
+    Gen.C13.nf_Feature_copy_create = Expected.nf_Feature_copy_create ∧
+    Gen.C13.nf_Feature_eq = Expected.nf_Feature_eq ∧
+    Gen.C13.nf_Feature_hash = Expected.nf_Feature_hash ∧
+    Gen.C13.nf_Feature_get_location_range = Expected.nf_Feature_get_location_range ∧
+    Gen.C13.nf_Annotation_init = Expected.nf_Annotation_init ∧
+    Gen.C13.nf_Annotation_copy_create = Expected.nf_Annotation_copy_create ∧
+    Gen.C13.nf_Annotation_eq = Expected.nf_Annotation_eq ∧
+    Gen.C13.nf_AnnotatedSequence_init = Expected.nf_AnnotatedSequence_init ∧
+    Gen.C13.nf_AnnotatedSequence_copy_create = Expected.nf_AnnotatedSequence_copy_create ∧
+    Gen.C13.nf_AnnotatedSequence_eq = Expected.nf_AnnotatedSequence_eq := ⟨rfl, rfl, rfl, rfl, rfl, rfl, rfl, rfl, rfl, rfl, rfl, rfl, rfl, rfl⟩
+
+/-- `Annotation.__getitem__`: the bounds (`±inf`, `stop - 1`), the three in-scope comparisons, the two cut
+tests with the flag each one sets, `len(locs_in_scope) > 0`, TypeError for a non-slice — what `sliceLocE`,
+`sliceFeatureE`, `sliceAnnotE` model. -/
+theorem C13_gen_nf_annotation_getitem :
+    Gen.C13.nf_Annotation_getitem = Expected.nf_Annotation_getitem := rfl
+
+/-- In-place edits and queries of an annotation (`annotAdd`, `annotDel`, `annotHas`, `annotCount`). -/
+theorem C13_gen_nf_annotation_edit :
+    Gen.C13.nf_Annotation_add_feature = Expected.nf_Annotation_add_feature ∧
+    Gen.C13.nf_Annotation_del_feature = Expected.nf_Annotation_del_feature ∧
+    Gen.C13.nf_Annotation_add = Expected.nf_Annotation_add ∧
+    Gen.C13.nf_Annotation_iadd = Expected.nf_Annotation_iadd ∧
+    Gen.C13.nf_Annotation_delitem = Expected.nf_Annotation_delitem ∧
+    Gen.C13.nf_Annotation_iter = Expected.nf_Annotation_iter ∧
+    Gen.C13.nf_Annotation_contains = Expected.nf_Annotation_contains ∧
+    Gen.C13.nf_Annotation_len = Expected.nf_Annotation_len := ⟨rfl, rfl, rfl, rfl, rfl, rfl, rfl, rfl⟩
+
+/-- `AnnotatedSequence.__getitem__` (`getSlice`, `getInt`, `getFeature`): the `< sequence_start` guards and
+their IndexError, `- sequence_start` / `+ 1` arithmetic, the open-stop substitution `len + sequence_start`,
+the strand check, both sort keys and `reverse=True`, reverse → `.reverse().complement()`. -/
+theorem C13_gen_nf_aseq_getitem :
+    Gen.C13.nf_AnnotatedSequence_getitem = Expected.nf_AnnotatedSequence_getitem := rfl
+
+/-- `AnnotatedSequence.__setitem__` (`setFeature`/`setLoop`, `setSlice`, `setInt`). -/
+theorem C13_gen_nf_aseq_setitem :
+    Gen.C13.nf_AnnotatedSequence_setitem = Expected.nf_AnnotatedSequence_setitem := rfl
+
+/-- `reverse_complement` (`revLocE`, `reverseComplement`): position formulas, strand flip, `MIRROR` of the
+defect (its table is `C13_gen_defect_flags`), the requested start handed to the result. -/
+theorem C13_gen_nf_revcomp :
+    Gen.C13.nf_AnnotatedSequence_reverse_complement = Expected.nf_AnnotatedSequence_reverse_complement := rfl
+
+/-- The `Sequence` / `NucleotideSequence` helpers the operations rely on (`copy`, `reverse`, slicing,
+concatenation, `==`, `complement`, the alphabet test of `__copy_create__`). -/
+theorem C13_gen_nf_sequence :
+    Gen.C13.nf_Sequence_copy = Expected.nf_Sequence_copy ∧
+    Gen.C13.nf_Sequence_reverse = Expected.nf_Sequence_reverse ∧
+    Gen.C13.nf_Sequence_getitem = Expected.nf_Sequence_getitem ∧
+    Gen.C13.nf_Sequence_len = Expected.nf_Sequence_len ∧
+    Gen.C13.nf_Sequence_eq = Expected.nf_Sequence_eq ∧
+    Gen.C13.nf_Sequence_add = Expected.nf_Sequence_add ∧
+    Gen.C13.nf_NucleotideSequence_copy_create = Expected.nf_NucleotideSequence_copy_create ∧
+    Gen.C13.nf_NucleotideSequence_complement = Expected.nf_NucleotideSequence_complement := ⟨rfl, rfl, rfl, rfl, rfl, rfl, rfl, rfl⟩
+
+/-- Default values of the public signatures (what the adapter leaves out and the model assumes: forward
+strand, no defect, no qualifiers, no features, sequence start 1 twice, `reverse(copy=True)`), and the
+sentinels / exclusive stop of `Annotation.get_location_range` (`annotRange`). -/
+theorem C13_gen_defaults :
+    Gen.C13.defaults = Expected.defaults ∧ Gen.C13.rangeFacts = Expected.rangeFacts ∧
+    Gen.C13.rangeFacts = ["-sys.maxsize", "sys.maxsize", "stop = last + 1"] ∧
+    (annotRange [] = (maxsize, -maxsize + 1)) := by decide
 
 /-! ## Non-vacuity -/
 
